@@ -428,7 +428,7 @@ def check(run: core.Run) -> int:
     xcases = [cc.witness_case(w) for _, sel, _, w in KNOWN if sel in (cc.SEL_CAP, cc.SEL_IV)]
     xcases += [(dict(c, max_tracks=mt), h) for c, h in (cc.witness_case("third_appears_local_queue"),)
                for mt in (0, 1, 2, 3)]
-    n_x = 4000 if thorough else 420
+    n_x = 4000 if thorough else 360
     for _ in range(n_x):
         cfg = random_xcfg(rng)
         xcases.append((cfg, xhistory(rng, cfg)))
